@@ -38,7 +38,7 @@ for f in selftest/benign/*.patch; do
   [ -n "$PAT" ] && break
   git -C "$W" checkout -q -- . && git -C "$W" apply "$PWD/$f" || { echo "APPLY-FAILED $f"; fail=1; continue; }
   for prop in C06 C07 C08 C13 C14 C15 C18 C19; do
-    out=$(./check "$prop" --tier quick 2>&1); rc=$?
+    out=$(./check "$prop" --tier quick --runs $(./check planned "$prop" half) 2>&1); rc=$?
     if [ $rc -eq 0 ]; then echo "SILENT   $(basename $f) $prop"; else echo "ALARM    $(basename $f) $prop rc=$rc: $(echo "$out" | grep -m1 -A1 VIOLATION | tr '\n' ' ')"; fail=1; fi
   done
 done
